@@ -72,6 +72,13 @@ func (c *Chain) planEpoch(e common.Epoch, sh *common.ShufflingEpoch, epc *common
 	if c.Scenario != nil && c.Scenario.Mode != nil {
 		mode = c.Scenario.Mode(c, e)
 	}
+	if c.CommitteeDropChain && e <= 2 {
+		mode = "full" // every committee of the epochs around the committee-count drop attests and is included at once
+	}
+	if f := c.Spec.ALTAIR_FORK_EPOCH; c.Phase0LeakMix && e >= 1 && uint64(f) < uint64(c.Epochs) && e+1 < f {
+		// phase0 leak: too few correct target votes to justify, many votes with the right source but a non-canonical target
+		mode = "leakmix"
+	}
 	r := c.Rng
 	p := &EpochPlan{Epoch: e, Mode: mode, Who: map[common.ValidatorIndex]Part{}}
 	spe := uint64(c.Spec.SLOTS_PER_EPOCH)
@@ -140,6 +147,19 @@ func (c *Chain) planEpoch(e common.Epoch, sh *common.ShufflingEpoch, epc *common
 	case "wrong_target":
 		for _, v := range members {
 			p.Who[v] = Part{Attest: true, Delay: 1, Variant: VarWrongTarget}
+		}
+	case "leakmix":
+		for _, v := range members {
+			switch x := r.Intn(100); {
+			case x < 35:
+				p.Who[v] = Part{Attest: true, Delay: 1, Variant: VarWrongTarget}
+			case x < 50:
+				p.Who[v] = Part{Attest: true, Delay: 1, Variant: VarWrongHead}
+			case x < 85:
+				p.Who[v] = Part{Attest: true, Delay: 1}
+			default:
+				p.Who[v] = Part{}
+			}
 		}
 	case "late":
 		d := delays[4+r.Intn(len(delays)-4)]
@@ -211,6 +231,12 @@ func (c *Chain) genPending(a common.Slot, epc *common.EpochsContext, flats []com
 		for _, k := range order {
 			pa := &PendingAtt{Slot: a, Index: common.CommitteeIndex(ci), Committee: append([]common.ValidatorIndex(nil), cm...),
 				Bits: groups[k], Variant: k.v, Due: a + k.d, Again: c.Rng.Chance(4)}
+			if f := sp.ALTAIR_FORK_EPOCH; uint64(f) < uint64(c.Epochs) && e+1 == f && k.d == 1 && a%sp.SLOTS_PER_EPOCH+3 <= sp.SLOTS_PER_EPOCH && c.Rng.Chance(40) {
+				// last phase0 epoch: the aggregate is included a second time later in the same epoch, so that
+				// previous_epoch_attestations at the altair upgrade holds two records for the same validators, the later one
+				// with fewer flags (no timely head, maybe no timely source)
+				pa.Again = true
+			}
 			c.Pending = append(c.Pending, pa)
 		}
 	}
@@ -558,6 +584,17 @@ func (c *Chain) fillAttestations(p *ProposeCtx) {
 		p.B.Attestations = append(p.B.Attestations, c.makeAttestation(p, d, pa.Committee, pa.Bits))
 		if d.Target.Epoch < p.lastForkEpoch() {
 			p.Ops["att_pre_fork_target"]++
+		}
+		if p.Fork == Phase0 && d.Target.Epoch < p.Epoch && p.Epc.CurrentEpoch != nil && len(p.Epc.CurrentEpoch.Committees) > 0 &&
+			int(d.Index) >= len(p.Epc.CurrentEpoch.Committees[0]) {
+			// committees per slot dropped at the epoch boundary: the index is valid for the target epoch only
+			p.Ops["att_prev_epoch_index_above_current_count"]++
+		}
+		if pa.Variant == VarWrongTarget {
+			c.wrongTargetIncluded[d.Target.Epoch]++
+		}
+		if f := c.Spec.ALTAIR_FORK_EPOCH; pa.Included >= 1 && p.Fork == Phase0 && d.Target.Epoch+1 == f && p.Epoch+1 == f {
+			p.Ops["att_overlap_fewer_flags_last_phase0_epoch"]++
 		}
 		pa.Included++
 		delay := p.Slot - pa.Slot
@@ -1030,6 +1067,16 @@ func (c *Chain) learnValidators() {
 		}
 		c.Vals = append(c.Vals, ValInfo{Key: g.Key, WKey: g.WKey, Addr: g.Addr})
 		c.Stats.Inc("validators_added_by_deposit")
+		if c.depForkArmed && i == c.depForkIndex && g.Key == c.depForkKey {
+			// registered at an index where the shared pubkey cache already holds the side branch's key
+			c.Stats.Inc("deposit_fork_conflicting_registration")
+			if br, err := c.St.Balances(); err == nil {
+				if b, err := br.GetBalance(common.ValidatorIndex(i)); err == nil && b > g.Balance {
+					c.Stats.Inc("deposit_fork_topup_credited_after_conflict")
+				}
+			}
+			c.depForkArmed = false
+		}
 		if g.Balance > c.Spec.MAX_EFFECTIVE_BALANCE && g.Balance%c.Spec.EFFECTIVE_BALANCE_INCREMENT != 0 {
 			c.Stats.Inc("validators_added_with_fractional_amount_above_max")
 			if c.Slot()%c.Spec.SLOTS_PER_EPOCH != 0 {
